@@ -198,9 +198,11 @@ class T:
     def slice_of(self, base):
         form = self.pick(['a:b', 'a:', ':b', '::c', ':', 'a::', ':b:'])
         self.use('slice:' + form)
-        lo = Val(D(self.pick(['0', '1', '2', '1.5']))) if self.n(4) else ('Un', '-', Val(D(self.pick(['1', '2', '3']))))
-        hi = Val(D(self.pick(['1', '2', '3', '4', '9']))) if self.n(4) else ('Un', '-', Val(D('1')))
-        stp = Val(D(self.pick(['1', '2']))) if self.n(3) else ('Un', '-', Val(D('1')))
+        lo = Val(D(self.pick(['0', '1', '2', '1.5', '0.0']))) if self.n(4) else ('Un', '-', Val(D(self.pick(['1', '2', '3', '0']))))
+        hi = Val(D(self.pick(['1', '2', '3', '4', '9', '0', '0', '0.0']))) if self.n(4) else ('Un', '-', Val(D(self.pick(['1', '0']))))
+        stp = Val(D(self.pick(['1', '2', '0']))) if self.n(3) else ('Un', '-', Val(D('1')))
+        if self.n(6) == 0:
+            hi = Bin('-', Call('len', [Val('a')]), Val(D(1)))       # a stop that only evaluates to zero
         sl = {'a:b': [lo, hi, NONE], 'a:': [lo, NONE, NONE], ':b': [NONE, hi, NONE], '::c': [NONE, NONE, stp],
               ':': [NONE, NONE, NONE], 'a::': [lo, NONE, NONE], ':b:': [NONE, hi, NONE]}[form]
         return Call('__getitem__', [base, ('Slice', sl)], 'slice:' + form)
